@@ -231,6 +231,15 @@ def check(pid, tier, seed, replay):
         cases, n = machine.mc_machine(ck, "control", 2 if quick else 3, 12)
         trace = machine.run_steps(ck, cases, "c07", maxsteps=18)
         machine.validate_traces(ck, trace, 12, lambda e, run, exp: "branch/jump differs from the definition (%s event)" % e.get("ev"), "R-branch")
+        # nested ?/! trees evaluated on stacks with NaN at every depth (generated, beyond the enumeration bound)
+        import random as _r
+        rr = _r.Random(seed)
+        fam = [{"prog": machine.area_pop_family(rr), "input": []} for _ in range(400 if quick else 6000)]
+        work = tmpdir("c07_area")
+        cp = os.path.join(work, "cases.json")
+        machine.write_cases(cp, fam)
+        trace = machine.run_steps(ck, cp, "c07area", maxsteps=40)
+        machine.validate_traces(ck, trace, 12, lambda e, run, exp: "nested branch evaluation differs from the definition (%s event)" % e.get("ev"), "T-area")
     ck.cov["rule"] = ("R: every case of the TLC-enumerated operand space (exhaustive); T: one validated event per "
                       "recorded operation of random register histories")
     return ck.finish()
